@@ -146,6 +146,7 @@ class SimNet:
         self.owner_classes = ()
         self.nconn = 0
         self.slow_by = 0
+        self.cut_next = None
 
     # -- configuration -----------------------------------------------------
     def add_server(self, host, port=None, **kw) -> ModelServer:
@@ -483,6 +484,11 @@ class SimSocket:
             net.log("recv_blocks_forever", self, self.timeout)
             raise _realsocket.timeout("timed out")
         limit = min(n, avail)
+        if net.cut_next is not None:
+            # scripted single cut: this recv returns at most cut_next bytes, later ones are unrestricted
+            if 0 < net.cut_next < limit:
+                limit = net.cut_next
+            net.cut_next = None
         if net.delivery != "whole":
             limit = 1 if net.delivery == "byte" else min(limit, len(conn.pipe[0][0]))
         c = "ok"
